@@ -46,6 +46,29 @@ func (c04) Gen(rt *rapid.T, thorough bool) any {
 	if rapid.Bool().Draw(rt, "starve") {
 		s.Knobs.Starve = []string{"go@plugin_logger"}
 	}
+	scaleOdds := 60
+	if thorough {
+		scaleOdds = 12
+	}
+	if rapid.IntRange(0, scaleOdds).Draw(rt, "default_scale") == 0 {
+		// the declared default capacity (bufferSize omitted = 10000) is only reached at scale
+		s.BufferSize, s.DefaultSize, s.Gate, s.Slow = 10000, true, 2, 0
+		if s.Policy == "Block" {
+			s.Gate = 1
+		}
+		s.Refs = []RefSpec{{Ref: "rec0"}}
+		s.Knobs.Starve, s.Clock = nil, nil
+		s.Producers = nil
+		np := rapid.IntRange(1, 3).Draw(rt, "scale_producers")
+		for p := 0; p < np; p++ {
+			var ops []AOp
+			for i := 0; i < 10120/np+1; i++ {
+				ops = append(ops, AOp{Lvl: "ERROR", Raw: i%7 == 0})
+			}
+			s.Producers = append(s.Producers, ops)
+		}
+		return s
+	}
 	if rapid.IntRange(0, 4).Draw(rt, "contention") == 0 {
 		// contention preset: many producers hammering a full buffer whose worker is held, with a
 		// scheduling choice at every step - the overflow paths race against each other
